@@ -957,8 +957,47 @@ def q_tagging(cfg):
             res.ob(ok, {'rule': 'Q-11', 'function': sh(f.name), 'site': fileline(e.get('loc')), 'fact': 'append to the current-interval list is control-dependent on last_seen_epoch == fresh global epoch', 'verdict': 'discharged' if ok else 'VIOLATION'})
             if not ok:
                 res.find(f, e.get('loc'), 'a request is appended to current_interval_dealloc_requests on a path on which last_seen_epoch is not known to equal the global epoch just read: if the epoch has moved on, the request is filed (and later rotated) one epoch too old and is freed one epoch change early - while a thread that passed its quiescent state before the request was made may still reference the object', key='Q-11:stale-epoch-append', config=cfg.name)
+    # the mirror image: a NEW request handed to advance_last_seen_epoch (which drops its argument when the thread has already
+    # seen that epoch) is handed over only when last_seen_epoch is known to differ from the fresh epoch
+    m = 0
+    for f in cfg.functions:
+        if not f.blocks or f.cls != PT:
+            continue
+        inits = {}
+        for b, i, e in f.elements():
+            if e.get('k') == 'decl':
+                for v in e['vars']:
+                    if 'init' in v:
+                        inits[v['did']] = v['init']
+
+        def is_last_seen2(o):
+            x = f.strip_casts(o)
+            while isinstance(x, dict) and x.get('k') == 'call' and x.get('ck') == 'ctor' and x.get('copy') and x.get('args'):
+                x = f.strip_casts(x['args'][0])
+            return isinstance(x, dict) and x.get('k') == 'member' and x.get('name') == 'last_seen_epoch' and isinstance(f.strip_casts(x['base']), dict) and f.strip_casts(x['base']).get('k') == 'this'
+        for b, i, e in f.elements():
+            if e.get('k') != 'call' or e.get('name') != 'advance_last_seen_epoch' or len(e.get('args', [])) != 3 or is_assert_elem(e):
+                continue
+            a2 = f.strip_casts(e['args'][2])
+            # a defaulted (empty) vector argument carries nothing
+            if isinstance(a2, dict) and a2.get('k') == 'call' and a2.get('ck') == 'ctor' and not a2.get('args'):
+                continue
+            if isinstance(a2, dict) and a2.get('k') == 'defaultarg':
+                continue
+            m += 1
+            ok = False
+            for c, val, cb in control_conditions(f, b):
+                if isinstance(c, dict) and c.get('k') == 'call' and c.get('ck') == 'op' and c.get('op') in ('==', '!=') and len(c.get('args', [])) == 2:
+                    ne = val if c['op'] == '!=' else (not val)
+                    if ne and (is_last_seen2(c['args'][0]) or is_last_seen2(c['args'][1])):
+                        ok = True
+            res.ob(ok, {'rule': 'Q-11', 'function': sh(f.name), 'site': fileline(e.get('loc')), 'fact': 'a new request is handed to advance_last_seen_epoch only under last_seen_epoch != fresh epoch', 'verdict': 'discharged' if ok else 'VIOLATION'})
+            if not ok:
+                res.find(f, e.get('loc'), 'a new request is handed to advance_last_seen_epoch on a path on which last_seen_epoch is not known to differ from the epoch passed: advance_last_seen_epoch returns at once when the thread has already seen that epoch, and the request it was given by value is destroyed with it - the pointer is never queued, orphaned or freed', key='Q-11:request-dropped', config=cfg.name)
+    res.count('new requests handed to advance_last_seen_epoch', m)
     res.count('appends to the current-interval list', n)
     res.floor('appends to the current-interval list', 1)
+    res.floor('new requests handed to advance_last_seen_epoch', 1)
     return res
 
 
